@@ -827,15 +827,17 @@ def show_params(params):
 # and "Select" (l.316-318): the unique lowest-rank survivor wins, a tie at the lowest rank is an ambiguity error.
 #
 # Not documented (so this oracle only brackets them): what an ANNOTATED **kwargs pack adds on top of the one
-# point of a collector, what a numeric coercion into a concrete scalar parameter costs, what a plain value promoted
-# into a variadic tail costs (0..1 each), and whether a variable that the fixed part and the tail pattern share is
-# charged once or per part (both readings bracket the rank).  A size variable has no term in the documented formula.
+# point of a collector, what a numeric coercion into a concrete scalar parameter costs, and whether a variable that
+# the fixed part and the tail pattern share is charged once or per part (both readings bracket the rank).  A plain
+# value promoted into a variadic tail "is less specific than a true scalar parameter"
+# (docs/source/developer_guide/python_integration.rst l.427-429): read as one rank point per promoted value.  A size variable has no term in the documented formula.
 # ------------------------------------------------------------------------------------------------
 DOC_BUDGET_INPUT = 10000          # l.355
 DOC_BUDGET_PAYLOAD = 100          # l.356
 DOC_BUDGET_SCALAR_PARAM = 1       # l.357
 DOC_KWARGS_POINT = 1              # l.753
 DOC_VARIADIC_POINT = 1            # l.753-754 ("one rank point, like a variadic tail"), l.788-789
+DOC_PROMOTION_POINT = 1           # python_integration.rst l.427-429
 INF = float("inf")
 
 
@@ -926,7 +928,10 @@ def doc_call_rank(ov, args):
         # (tail arguments bind on their own: a variable of the tail alone is never shared between two tail arguments)
         joint = doc_rank(expand(ov, len(args))[0]) + DOC_VARIADIC_POINT
         lo, hi = min(separate, joint), max(separate, joint)
-        hi += sum(1 for ak, _ in args[len(fx):] if ak == "sc")         # promoted plain values: undocumented, 0..1 each
+        # python_integration.rst l.427-429: "a plain value promoting to const is less specific than a true scalar
+        # parameter" - read as the one rank point every other documented refinement costs
+        promoted = sum(1 for ak, _ in args[len(fx):] if ak == "sc")
+        lo, hi = lo + promoted * DOC_PROMOTION_POINT, hi + promoted * DOC_PROMOTION_POINT
         params = fx
     else:
         lo = hi = doc_rank(params)
@@ -1965,6 +1970,59 @@ def gen_variadic_case(rng, idx, all_orders=False):
     return Case(lines)
 
 
+def gen_promotion_case(rng, idx):
+    """plain VALUES in a variadic tail (promoted to const sources) against candidates that take them as true scalar
+    parameters: V = f(fixed.., *tail) with a flat tail, competitors f(fixed.., sc:.., sc:..) over scalar variables /
+    concrete scalars (exact or through a numeric coercion) / mixed, and a second variadic candidate; calls with 0..3
+    plain values (and one mixed port / value call).  The promotion point decides several of these pairs."""
+    lines = ["case %d" % idx]
+    s0 = rng.choice(["int", "int", "float", "str"])
+    tails = ["=TS[%s]" % s0, "=TS[%s]" % s0, "TS[%s]" % s0, "TS[~T]", "~S", "TS[~T<int|float>]", "REF[TS[%s]]" % s0, "REF[~S]"]
+    tail = parse_tp(rng.choice(tails))
+    fixed = [("ts", rng.choice([("var", "A0", ()), ("TS", ("sconc", "int")), ("TS", ("svar", "q0", ()))]))] \
+        if rng.random() < 0.45 else []
+    fargs = [("ts", ("TS", "int"))] * len(fixed)
+    ovs = [(fixed + [("vts", tail)], None, None)]
+    ks = sorted(set(rng.sample([0, 1, 1, 2, 2, 3], 2)))
+    want = rng.choice([2, 3, 4])
+    attempts = 0
+    while len(ovs) < 1 + want and attempts < 30:
+        attempts += 1
+        r = rng.random()
+        k = rng.choice(ks)
+        if r < 0.70:
+            ps = list(fixed)
+            for i in range(k):
+                q = rng.random()
+                if q < 0.45: ps.append(("sc", ("svar", "j%d" % i, ())))
+                elif q < 0.70: ps.append(("sc", ("sconc", s0)))
+                elif q < 0.85: ps.append(("sc", ("sconc", rng.choice(["int", "float", "bool"]))))
+                else: ps.append(("sc", ("svar", "j0", ())))           # repeated scalar variable
+        elif r < 0.85:
+            t2 = parse_tp(rng.choice(tails))
+            ps = list(fixed) + [("vts", t2)]
+        else:       # one more fixed scalar parameter in front of the same tail
+            ps = list(fixed) + [("sc", ("svar", "j9", ())), ("vts", tail)]
+        if any(ps == o[0] for o in ovs):
+            continue
+        ovs.append((ps, None, None))
+    rng.shuffle(ovs)
+    labels = ["A", "B", "C", "D", "E"][:len(ovs)]
+    for l, ov in zip(labels, ovs):
+        lines.append(show_ov(l, ov))
+    for q in gen_perms(rng, labels, "quick"):
+        lines.append("perm " + " ".join(q))
+    calls = []
+    for k in ks:
+        calls.append(list(fargs) + [("sc", s0 if rng.random() < 0.75 else rng.choice(SCALARS)) for _ in range(k)])
+    k = ks[-1] or 1
+    calls.append(list(fargs) + [("sc", s0) if rng.random() < 0.5 else ("ts", ("TS", s0)) for _ in range(k)])
+    calls.append(list(fargs) + [("ts", mk_ref(("TS", s0)) if rng.random() < 0.3 else ("TS", s0)) for _ in range(k)])
+    for c in calls[:5]:
+        lines.append(show_call(c))
+    return Case(lines)
+
+
 def _var_sites(p, c, acc):
     """the (REF-stripped) argument sub-schemas that the occurrences of every whole-time-series variable / schema variable of
     pattern p are confronted with while p is read against schema c: acc[name] += [(kind, schema)], kind 'var' | 'schema'.
@@ -2087,6 +2145,7 @@ def streams(rng, tier, seed):
             (spec if f.startswith(SPEC_CORPUS) else corpus).append(c)
     spec += [gen_spec_case(rng, 20000 + i) for i in range(12 if tier == "quick" else 150)]
     variadic = [gen_variadic_case(rng, 80000 + i) for i in range(300 if tier == "quick" else 6000)]
+    variadic += [gen_promotion_case(rng, 95000 + i) for i in range(40 if tier == "quick" else 800)]
     if tier != "quick":
         variadic += [gen_variadic_case(rng, 90000 + i, all_orders=True) for i in range(600)]
     vcorpus = [c for c in corpus if any(" *ts:" in l for l in c.lines)]
